@@ -110,14 +110,27 @@ def h_getters(sx):
         if t2 in ("no", "false", "off", "0"):
             return False
         raise ValueError(t)
-    for getter, conv, default in (("getint", int, 7), ("getfloat", float, 2.5), ("getbool", pb, True)):
+    # the getters are called one after the other on the SAME object, in a symbolic order: the result of each depends on
+    # the stored text only, never on which getters were called before
+    getters = [("getint", int, 7), ("getfloat", float, 2.5), ("getbool", pb, True)]
+    order = sx.choice("order", [0, 1, 2, 3, 4, 5])
+    order = order if isinstance(order, int) else order.concretize()
+    import itertools
+    called = []
+    for getter, conv, default in list(itertools.permutations(getters))[order]:
         try:
             got = ("value", getattr(view, getter)(name, default))
         except ValueError:
             got = ("ValueError", None)
+        except Exception as e:       # noqa - any other exception class is a violation, not a harness error
+            got = (type(e).__name__, None)
         exp = expect(conv, default)
+        called.append(getter)
         sx.check(got == exp and (got[0] != "value" or type(got[1]) is type(exp[1])), "C20.getter-%s" % getter,
-                 detail={"value": v, "present": bool(present), "got": repr(got), "expected": repr(exp)})
+                 detail={"value": v, "present": bool(present), "got": repr(got), "expected": repr(exp), "called_so_far": list(called)})
+        if present:
+            sx.check(data[key] == v and type(data[key]) is type(v), "C20.getter-leaves-stored-text-alone",
+                     detail={"value": v, "stored": repr(data[key]), "called_so_far": list(called)})
     return [v, bool(present)]
 
 
